@@ -175,11 +175,12 @@ Proof.
   specialize (IH (cnt - 1)%Z (v :: acc) (n + m) r ltac:(lia)).
   destruct (run_flat (read_vals f (cnt - 1) (v :: acc) (n + m)) r); cbn [prog0] in *; auto. lia.
 Qed.
-Lemma read_sized_prog0 fuel cap mk s : (length s < fuel)%nat -> prog0 s (run_flat (read_sized fuel cap mk) s).
+Lemma read_sized_prog0 fuel cap pb mk s : (length s < fuel)%nat -> prog0 s (run_flat (read_sized fuel cap pb mk) s).
 Proof.
   intros Hf. unfold read_sized. rewrite run_flat_bind by apply read32_robust. pose proof (read32_prog s) as P.
   destruct (run_flat read32 s) as [[size n] r| | |]; cbn [prog] in P; try contradiction; [|exact I].
   destruct (size <? 0)%Z; [exact I|].
+  destruct (2 ^ pb <? size)%Z; [exact I|].
   rewrite run_flat_bind by apply read_vals_robust.
   pose proof (read_vals_prog0 fuel size [] 0 r ltac:(lia)) as Q.
   destruct (run_flat (read_vals fuel size [] 0) r) as [[vs m] r2| | |]; cbn [prog0 run_flat] in *; auto. lia.
